@@ -132,6 +132,8 @@ pub fn times() -> Vec<Vec<TimeSpan>> {
         vec![span(tfix(0, 0), tfix(24, 0)), span(tfix(4, 0), tfix(48, 0))],
         // an open end with an explicit end just after midnight (`18:00-24:30+`)
         vec![span_open_end(tfix(18, 0), tfix(24, 30))],
+        // repetition steps, in minutes and in hours:minutes
+        vec![span_rep(tfix(10, 0), tfix(12, 0), 30), span_rep(tfix(14, 0), tfix(20, 0), 90)],
     ]
 }
 
